@@ -194,6 +194,14 @@ def check(ctx) -> None:
     rule_g11(ctx)
     # G13: the carbon label that gates 'input-balanced' counts every atom of the element (shared with C07-E13)
     c07.rule_e13(ctx, "C04-G13")
+    # G14: the verdict behind 'input-balanced' is 'Balance' only under key-set and value equality of the two compositions,
+    # and compare_dicts is its only producer (shared with C01-R4); G15: the compositions compared are those of the sides
+    # the row carries now - the decomposer reads the fields the validator refreshes, for the rows it labels (shared with
+    # C01-R2)
+    from . import c01
+
+    c01.rule_r4(ctx, "C04-G14")
+    c01.rule_r2(ctx, pl, "C04-G15")
 
 
 def rule_g11(ctx, rule_id: str = "C04-G11") -> None:
